@@ -3,6 +3,6 @@
 NAME="$1"; shift
 cd /verif
 git -C /repo apply /verif/seeded/$NAME/patch.diff || { echo "patch does not apply"; exit 1; }
-for p in "$@"; do ./check $p quick | grep -E "^(violated|OK|UNDECIDED|KNOWN)" | cut -c1-260; done
+for p in "$@"; do ./check $p quick | grep -E "^(violated|undischarged|OK|UNDECIDED|KNOWN)" | cut -c1-260; done
 git -C /repo checkout -- .
 git -C /repo status --short | head -3
